@@ -1186,6 +1186,11 @@ func buildMessageFieldSchema(pkg *Package, context fieldContext, src protoreflec
 	isOneofWrapper := isOneofWrapper(msg, msgOptions)
 
 	ref, didExist := newRefPlaceholder(pkg.PackageSet, msg)
+	if didExist && ref.To == nil && flatten {
+		// the target is still being built, i.e. it contains this field:
+		// inlining it would never end
+		return nil, fmt.Errorf("field %s flattens %s, which contains it", src.FullName(), msg.FullName())
+	}
 	if !didExist {
 		var err error
 		if isOneofWrapper {
